@@ -1,0 +1,20 @@
+// Copyright 2025 The Go Authors. All rights reserved.
+// Use of this source code is governed by a BSD-style
+// license that can be found in the LICENSE file.
+
+//go:build verif
+
+package http3
+
+// Contract for the deductive verifier in /verif (govc), property C33: the QPACK encoder keeps the
+// never-indexed flag. The indexed field line form has no N bit, so it may be used only for fields
+// that may be indexed; the two literal forms are given the caller's index type unchanged.
+// Lower-casing and the static-table maps are abstracted (havoccalls).
+
+//@ func (*qpackEncoder).encode$1(itype, name, value)
+//@   havoccalls
+//@   assert at call appendIndexedFieldLine: itype == mayIndex
+//@   assert at call appendLiteralFieldLineWithNameReference: $itype == itype
+//@   assert at call appendLiteralFieldLineWithLiteralName: $itype == itype
+//@   partial nopanic, pre
+//@   noframe
